@@ -1,5 +1,6 @@
 import re
 import json
+import zlib
 import collections
 import collections.abc
 
@@ -505,11 +506,26 @@ class Table:
 
 class TransactionDecode:
     def filter(self, transactions:Iterable[str]) -> Iterable[Any]:
-        transactions = iter(filter(None,map(methodcaller('strip'),transactions)))
-        ver_row = json.loads(next(transactions))
-        if ver_row[1] == 4:
+        transactions = map(itemgetter(1),self.complete(transactions))
+        ver_row = next(transactions,None)
+        if ver_row and ver_row[1] == 4:
             yield ver_row
-            yield from map(json.loads,transactions)
+            yield from transactions
+
+    @staticmethod
+    def complete(lines:Iterable[str]) -> Iterable[Tuple[str,Any]]:
+        """The (line,record) pairs of a log up to a final record that was only partly written."""
+        lines = iter(filter(None,map(methodcaller('strip'),lines)))
+        try:
+            for line in lines:
+                try:
+                    record = json.loads(line)
+                except ValueError:
+                    if next(lines,None) is not None: raise #the log is corrupt, not torn
+                    return
+                yield line,record
+        except (EOFError,OSError,zlib.error): #a torn gzip member
+            return
 
 class TransactionEncode:
     def __init__(self,restored):
@@ -557,7 +573,7 @@ class TransactionResult:
         exp_dict = {}
 
         transactions = iter(transactions)
-        version      = next(transactions)[1]
+        version      = next(transactions,[None,4])[1]
 
         def list2tuple(item:dict):
             return {k: tuple(v) if isinstance(v,list) else v for k,v in item.items()}
